@@ -248,7 +248,7 @@ def gammastd_yxt(
                     s[ti] = s[ti] * 1000
                 np.round(s, 0, s)
                 # saturate: an infinite or huge index must not wrap in the int16 store
-                np.clip(s, -32767, 32767, s)
+                np.clip(s, -32768, 32767, s)
                 y[ri, ci, :] = s[:]
 
     return y
@@ -289,7 +289,7 @@ def gammastd_grp(xx, groups, num_groups, nodata, cal_indices, yy):
             res[valid_ix] = res[valid_ix] * 1000
             np.round(res, 0, res)
             # saturate: an infinite or huge index must not wrap in the int16 store
-            np.clip(res, -32767, 32767, res)
+            np.clip(res, -32768, 32767, res)
         yy[grp_ix] = res[:]
 
 
